@@ -29,9 +29,9 @@ m = {
     "version": 1,
     "setup_cmd": "./setup.sh",
     "hooks": {
-        "guard": "cfg(kani) / --cfg goml_verif",
-        "enable": "no hook is compiled into /repo: checks extract function text from /repo's working tree (Verus units) or inject `#[cfg(kani)] mod` lines into a scratch copy outside /repo (Kani units)",
-        "baseline_off_cmd": "cd /repo && cargo test --workspace --no-fail-fast --offline",
+        "guard": "none needed: no hook or instrumentation is compiled into /repo (a flag --cfg goml_verif is reserved, unused)",
+        "enable": "nothing to enable: every check extracts function text from /repo's working tree on each run and verifies the generated file with Verus; /repo is never built with a special flag (the only /repo commits of this work are unguarded `fix:` repairs, listed in known_findings.txt)",
+        "baseline_off_cmd": "cd /repo && cargo nextest run --workspace --no-fail-fast --offline",
         "source_commits": [],
         "add_only": True,
     },
